@@ -36,8 +36,8 @@ pub fn probes(_tier: &str) -> Vec<String> {
     "probe.status.revoked",
     "probe.status.suspended",
     "probe.status.valid",
-    "probe.status.mismatch_rejected",
-    "probe.stale_version_fetched",
+    "fault.verifier.mismatching_list_supplied",
+    "fault.host.stale_version_fetched",
     "probe.raw_list_ops",
     "probe.dense_large_list",
   ]
@@ -319,7 +319,7 @@ pub fn run(_params: &Params) {
         continue;
       }
       let lag = if versions > 1 && ctx::chance(3, 8) {
-        ctx::stat("probe.stale_version_fetched");
+        ctx::stat("fault.host.stale_version_fetched");
         nontrivial = true;
         1 + ctx::choose(versions - 1)
       } else {
@@ -360,7 +360,7 @@ pub fn run(_params: &Params) {
       match want {
         "Revoked" => ctx::stat("probe.status.revoked"),
         "Suspended" => ctx::stat("probe.status.suspended"),
-        "InvalidStatus" => ctx::stat("probe.status.mismatch_rejected"),
+        "InvalidStatus" => ctx::stat("fault.verifier.mismatching_list_supplied"),
         _ => ctx::stat("probe.status.valid"),
       }
       if name != want {
